@@ -149,7 +149,7 @@ func TestNamespace(t *testing.T) {
 					emit(nsEvent{K: "id", URI: st.URI, ID: e.InternalID})
 				}
 			}
-			emit(nsEvent{K: "ctx", Pairs: ctxPairs(w)})
+			emit(nsEvent{K: "ctxall", Pairs: ctxPairs(w)})
 			// ids of everything stored so far resolve to the same id (also after restarts)
 			for _, u := range b.Steps {
 				if u.A != "store" {
@@ -273,6 +273,80 @@ func TestNamespaceStress(t *testing.T) {
 	for i := 0; i < writers+readers; i++ {
 		<-done
 	}
+	// rounds: goroutines released together introduce DIFFERENT new namespaces (and ids), then the hub is
+	// restarted and, before anything is asserted again, every pair handed out so far must still expand,
+	// be in the context, and every stored URI must still resolve to the id it was given
+	var rounds []nsEvent
+	type handed struct{ exp, prefix, uri string }
+	var all []handed
+	for round := 0; round < envInt("VERIF_ROUNDS", 60); round++ {
+		const par = 8
+		res := make([][]nsEvent, par)
+		got := make([]handed, par)
+		start := make(chan struct{})
+		fin := make(chan int, par)
+		rds := w.Dsm.GetDataset("stress")
+		for g := 0; g < par; g++ {
+			go func(g int) {
+				defer func() { fin <- g }()
+				exp := fmt.Sprintf("http://rounds.test/r%d/g%d/", round, g)
+				uri := exp + "item"
+				<-start
+				curie, err := w.Store.GetNamespacedIdentifierFromURI(uri)
+				if err != nil {
+					return
+				}
+				k := strings.Index(curie, ":")
+				got[g] = handed{exp, curie[:k], uri}
+				res[g] = append(res[g], nsEvent{K: "ns", Exp: exp, Prefix: curie[:k]})
+				if g%2 == 1 {
+					return
+				}
+				e := server.NewEntity(curie, 0)
+				if err := rds.StoreEntities([]*server.Entity{e}); err == nil {
+					res[g] = append(res[g], nsEvent{K: "id", URI: uri, ID: e.InternalID})
+				}
+			}(g)
+		}
+		close(start)
+		for g := 0; g < par; g++ {
+			<-fin
+		}
+		for g := 0; g < par; g++ {
+			rounds = append(rounds, res[g]...)
+			if got[g].exp != "" {
+				all = append(all, got[g])
+			}
+		}
+		// what a restart (or crash) at this quiescent instant would load
+		st := &server.NamespacesState{}
+		if err := w.Store.GetObject(server.NamespacesIndex, "namespacestate", st); err == nil {
+			var pp [][2]string
+			for p, e := range st.PrefixToExpansionMapping {
+				pp = append(pp, [2]string{p, e})
+			}
+			sort.Slice(pp, func(i, j int) bool { return pp[i][0] < pp[j][0] })
+			rounds = append(rounds, nsEvent{K: "ctxall", Pairs: pp})
+		}
+		if round%5 != 4 {
+			continue
+		}
+		if err := w.Restart(); err != nil {
+			t.Fatal(err)
+		}
+		rounds = append(rounds, nsEvent{K: "ctxall", Pairs: ctxPairs(w)})
+		for _, h := range all[max(0, len(all)-3*par):] {
+			back, err := w.Store.ExpandCurie(h.prefix + ":item")
+			if err != nil {
+				back = "error: " + err.Error()
+			}
+			rounds = append(rounds, nsEvent{K: "rt", URI: h.uri, Back: back})
+			if ent, err := w.Store.GetEntity(h.uri, []string{"stress"}, true); err == nil && ent != nil && ent.InternalID != 0 {
+				rounds = append(rounds, nsEvent{K: "id", URI: h.uri, ID: ent.InternalID})
+			}
+		}
+	}
+	logs = append(logs, rounds)
 	f, err := os.Create(tracePath)
 	if err != nil {
 		t.Fatal(err)
